@@ -146,6 +146,17 @@ CHECKS["C18"] = dict(
     note="The reference abstains (UNSPEC, counted in evidence) where the documentation is silent; Python re / urllib / float parsing are trusted on the restricted inputs.",
     ref="DESIGN.md §6 P-C18")
 
+CHECKS["C11"] = dict(
+    technique="runtime monitoring: model-vs-loaded differential monitor over serialisations x loaders (hooked loader probes + verdict channels)",
+    text="Generated documents (unicode, digits-only, empty, keyword-looking strings, i64 bounds, extreme floats) are written by a position-tracking "
+         "emitter as JSON compact/pretty, YAML flow and YAML block with random quoting/indent/comments; the verif-hooks loader probes dump every loaded "
+         "node for the validate (libyaml) and the test/library (serde) loader and are compared type-strictly, incl. key and list order, with the model; "
+         "the document must equal its own Guard literal and pass per-path type probes through validate, --payload, run_checks and test; all 21 tags x "
+         "{scalar, sequence} x 3 nestings are compared with their long form; ill-formed texts and non-string keys must be rejected by all 6 front ends.",
+    note="Strings that YAML or Guard would type as non-strings are always emitted quoted (spellings outside the property are not generated plain). "
+         "Multi-document streams and aliases are out of the statement.",
+    ref="DESIGN.md §6 P-C11")
+
 PENDING = {}
 
 
